@@ -19,7 +19,7 @@ theorem queryTag_holds (s : St F) (t : Nat) (asg : Cell → F) :
 theorem queryTag_ext (s : St F) (t : Nat) : s.Ext (s.queryTag t) := by
   unfold St.queryTag; split
   · exact St.Ext.refl s
-  · exact ⟨rfl, ⟨[], rfl⟩, ⟨[], rfl⟩⟩
+  · exact ⟨rfl, rfl, ⟨[], rfl⟩, ⟨[], rfl⟩⟩
 
 theorem queryTag_cache (s : St F) (t : Nat) (asg : Cell → F) :
     (s.queryTag t).CacheOK asg ↔ s.CacheOK asg := by
@@ -160,3 +160,127 @@ theorem assertLessThanPow2_sound (hR : RangeSound R) (s : St F) (x : Cell) (k : 
   refine ⟨c1, N, ?_, by rw [hxy]; exact hv⟩
   have : (optSizes s.nrCols s.maxBitLen k).sum = k := by rw [ok2, hsum]
   rw [this] at hN; exact hN
+
+/-- The DP output needed by a range check of `k` bits in the configuration of state `s`. -/
+def OptOK (s : St F) (k : Nat) : Prop :=
+  optRowsOK s.nrCols ((optTable s.nrCols s.maxBitLen k).getD k []) ∧
+  (((optTable s.nrCols s.maxBitLen k).getD k []).map List.sum).sum = k
+
+theorem OptOK_ext {s s' : St F} (e : s.Ext s') (k : Nat) (h : OptOK s k) : OptOK s' k := by
+  unfold OptOK at *; rw [e.1, e.2.1]; exact h
+
+theorem updateBound_ext (s : St F) (c : Cell) (b : Nat) : s.Ext (s.updateBound c b) := by
+  unfold St.updateBound; split <;> exact ⟨rfl, rfl, ⟨[], rfl⟩, ⟨[], rfl⟩⟩
+
+theorem updateBound_holds (s : St F) (c : Cell) (b : Nat) (asg : Cell → F) :
+    (s.updateBound c b).Holds R asg ↔ s.Holds R asg := by
+  unfold St.updateBound; split <;> exact Iff.rfl
+
+theorem updateBound_cache (s : St F) (c : Cell) (b : Nat) (asg : Cell → F) :
+    (s.updateBound c b).CacheOK asg ↔ s.CacheOK asg := by
+  unfold St.updateBound; split <;> exact Iff.rfl
+
+/-- `assert_lower_than_fixed`, on the path that emits constraints (no smaller bound already
+recorded for the cell): every accepted assignment has `x = M` for a natural number
+`M < bound`, for EVERY bound (power of two or not). What is not proved here: the early return
+when `constrained_cells` already records a bound `≤ bound` relies on the invariant that every
+recorded bound was enforced earlier. -/
+theorem assertLowerThanFixed_sound_partial (hR : RangeSound R) (s : St F) (x : Cell) (bound : Nat)
+    (asg : Cell → F) (hnb : s.boundLe x bound = false) (hb : 0 < bound)
+    (h0 : 0 < s.nrCols) (h4 : s.nrCols ≤ 4) (hopt : OptOK s bound.log2)
+    (hc : s.CacheOK asg) (h : (assertLowerThanFixed s x bound).Holds R asg) :
+    ∃ M : Nat, M < bound ∧ asg x = (M : F) := by
+  have hk : 2 ^ bound.log2 ≤ bound := Nat.log2_self_le (by omega)
+  unfold assertLowerThanFixed at h
+  simp only [hnb, Bool.false_eq_true, if_false] at h
+  by_cases hp : 2 ^ bound.log2 = bound
+  · simp only [hp, if_true] at h
+    have e := updateBound_ext s x bound
+    obtain ⟨_, N, hN, hv⟩ := assertLessThanPow2_sound hR _ x bound.log2 asg (by rw [e.1]; exact h0)
+      (by rw [e.1]; exact h4) (OptOK_ext e _ hopt).1 (OptOK_ext e _ hopt).2
+      ((updateBound_cache s x bound asg).mpr hc) h
+    exact ⟨N, by omega, hv⟩
+  · simp only [hp, if_false] at h
+    -- states: s0 = updateBound; s1 = assignBit; s2 = addConstant; s3 = select; then range check
+    have e0 := updateBound_ext s x bound
+    have e1 := assignBit_ext (s.updateBound x bound)
+    have e2 := addConstant_ext (assignBit (s.updateBound x bound)).2 x
+      (-(((bound - 2 ^ bound.log2 : Nat) : Nat) : F))
+    have e3 := select_ext (addConstant (assignBit (s.updateBound x bound)).2 x
+      (-(((bound - 2 ^ bound.log2 : Nat) : Nat) : F))).2 (assignBit (s.updateBound x bound)).1 x
+      (addConstant (assignBit (s.updateBound x bound)).2 x
+        (-(((bound - 2 ^ bound.log2 : Nat) : Nat) : F))).1
+    have h3 := (assertLessThanPow2_ext _ _ _).holds asg h
+    have h2 := e3.holds asg h3
+    have h1 := e2.holds asg h2
+    have c0 := (updateBound_cache s x bound asg).mpr hc
+    obtain ⟨c1, rb⟩ := assignBit_sound _ asg c0 h1
+    obtain ⟨c2, r2⟩ := addConstant_sound _ x _ asg c1 h2
+    obtain ⟨c3, r3⟩ := select_sound _ _ _ _ asg c2 h3
+    have eall := e0.trans (e1.trans (e2.trans e3))
+    obtain ⟨_, N, hN, hv⟩ := assertLessThanPow2_sound hR _ _ bound.log2 asg (by rw [eall.1]; exact h0)
+      (by rw [eall.1]; exact h4) (OptOK_ext eall _ hopt).1 (OptOK_ext eall _ hopt).2 c3 h
+    rw [r3, r2] at hv
+    rcases rb with rb | rb
+    · -- b = 0: y = x - diff
+      rw [rb] at hv
+      refine ⟨N + (bound - 2 ^ bound.log2), by omega, ?_⟩
+      rw [natCast_add']
+      grind
+    · rw [rb] at hv
+      exact ⟨N, by omega, by grind⟩
+
+theorem lowerThan_ext (s : St F) (x : Cell) (bx : Nat) (y : Cell) (by_ : Nat) :
+    s.Ext (lowerThan s x bx y by_).2 := by
+  simp only [lowerThan]
+  exact (assignBit_ext s).trans ((updateBound_ext _ _ _).trans ((mul_ext ..).trans ((mul_ext ..).trans
+    ((linearCombination_ext ..).trans (assertLessThanPow2_ext ..)))))
+
+/-- `lower_than` on bounded values: for every accepted assignment the output bit is `[x < y]`
+(as natural numbers). Hypotheses: the operands are natural numbers below `2^bx`, `2^by` (what
+`bounded_of_element` enforces), and the field is large enough that `2^(max+1)` numbers do not
+wrap (`MAX_BOUND_IN_BITS = NUM_BITS − 2` in the Rust code) — expressed as injectivity of the
+cast below `p`. -/
+theorem lowerThan_sound (hR : RangeSound R) (p : Nat)
+    (hinj : ∀ a b : Nat, a < p → b < p → ((a : Nat) : F) = ((b : Nat) : F) → a = b)
+    (s : St F) (x : Cell) (bx : Nat) (y : Cell) (by_ : Nat) (asg : Cell → F)
+    (nx ny : Nat) (hx : asg x = (nx : F)) (hnx : nx < 2 ^ bx) (hy : asg y = (ny : F))
+    (hny : ny < 2 ^ by_) (hm : 2 * 2 ^ (max bx by_) ≤ p)
+    (h0 : 0 < s.nrCols) (h4 : s.nrCols ≤ 4) (hopt : OptOK s (max bx by_))
+    (hc : s.CacheOK asg) (h : (lowerThan s x bx y by_).2.Holds R asg) :
+    asg (lowerThan s x bx y by_).1 = if nx < ny then 1 else 0 := by
+  simp only [lowerThan] at h ⊢
+  have e1 := assignBit_ext s
+  have e2 := updateBound_ext (assignBit s).2 (assignBit s).1 2
+  have h5 := (assertLessThanPow2_ext _ _ _).holds asg h
+  have h4' := (linearCombination_ext ..).holds asg h5
+  have h3 := (mul_ext ..).holds asg h4'
+  have h2 := (mul_ext ..).holds asg h3
+  have h1 := (updateBound_holds _ _ _ asg).mp h2
+  obtain ⟨c1, rb⟩ := assignBit_sound s asg hc h1
+  have c2 := (updateBound_cache (assignBit s).2 (assignBit s).1 2 asg).mpr c1
+  obtain ⟨c3, r3⟩ := mul_sound _ x _ none asg c2 h3
+  obtain ⟨c4, r4⟩ := mul_sound _ y _ none asg c3 h4'
+  obtain ⟨_, c5, r5⟩ := linearCombination_sound _ _ _ asg c4 h5
+  have eall := e1.trans (e2.trans ((mul_ext ..).trans ((mul_ext ..).trans (linearCombination_ext ..))))
+  obtain ⟨_, N, hN, hv⟩ := assertLessThanPow2_sound hR _ _ (max bx by_) asg (by rw [eall.1]; exact h0)
+    (by rw [eall.1]; exact h4) (OptOK_ext eall _ hopt).1 (OptOK_ext eall _ hopt).2 c5 h
+  rw [r5] at hv
+  simp only [termSum, r4, r3, Option.getD_none] at hv
+  have hbx : 2 ^ bx ≤ 2 ^ (max bx by_) := Nat.pow_le_pow_right (by omega) (Nat.le_max_left _ _)
+  have hby : 2 ^ by_ ≤ 2 ^ (max bx by_) := Nat.pow_le_pow_right (by omega) (Nat.le_max_right _ _)
+  rw [hx, hy] at hv
+  rcases rb with rb | rb
+  · -- b = 0: z = x - y, so nx = ny + N
+    rw [rb] at hv ⊢
+    have : ((nx : Nat) : F) = ((ny + N : Nat) : F) := by rw [natCast_add']; grind
+    have := hinj nx (ny + N) (by omega) (by omega) this
+    have hlt : ¬ nx < ny := by omega
+    simp [hlt]
+  · -- b = 1: z = y - x - 1, so ny = nx + 1 + N
+    rw [rb] at hv ⊢
+    have : ((ny : Nat) : F) = ((nx + 1 + N : Nat) : F) := by
+      rw [natCast_add', natCast_add', Semiring.natCast_one]; grind
+    have := hinj ny (nx + 1 + N) (by omega) (by omega) this
+    have hlt : nx < ny := by omega
+    simp [hlt]
